@@ -211,6 +211,10 @@ def oracle(case, out, props):
 def run(pid, tier):
     rep = vlib.Report(pid, tier)
     P = PROPS[pid]
+    cb_handle = None
+    if pid == "C01":
+        import cbmccheck
+        cb_handle = cbmccheck.start(["getbits"])      # symbolic tie of lrtr_get_bits / lrtr_ipv6_get_bits to the bit-field specification
     proved = vlib.prove(rep, P["modules"], P["theorems"], extra_targets=["pfxdriver"])
     drv = vlib.driver_path("pfxdriver")
     if not os.path.exists(drv):
@@ -338,7 +342,20 @@ def run(pid, tier):
         rep.build_log = "history %s line %d (%s)\n impl : %s\n model: %s\nops:\n%s" % (
             c.hid, d, c.ops[d] if d < len(c.ops) else "", a, b, "\n".join(c.ops[:d + 1]))
         vlib.proof_failure(rep, "correspondence pfx (model RtrModel.PfxTable vs trie.c/trie-pfx.c) diverges")
-    if not proved and not mine and not crashes and not divergences:
+    cb_failed = []
+    if cb_handle is not None:
+        cb = cbmccheck.join(cb_handle)
+        rep.cov["cbmc"] = {k: {"ok": v["ok"], "seconds": v["seconds"], "what": cbmccheck.OBLIGATIONS[k]} for k, v in cb.items()}
+        rep.cov.setdefault("trusted_base", []).append("cbmc 6.11 (symbolic tie of lrtr_get_bits / lrtr_ipv6_get_bits to the bit-field specification)")
+        for k, v in cb.items():
+            rep.obligations["cbmc:" + k] = v["ok"]
+            if not v["ok"]:
+                cb_failed.append((k, v))
+    if cb_failed and not mine and not crashes:
+        rep.build_log = "\n\n".join("== cbmc obligation %s: %s\nfailed properties: %s\ncounterexample inputs: %s\ncommand: %s\n%s" % (
+            k, cbmccheck.OBLIGATIONS[k], "; ".join(v["failed"]), v["inputs"], v.get("cmd"), v["log"][-800:]) for k, v in cb_failed)
+        vlib.proof_failure(rep, "\n".join("cbmc:%s (%s)" % (k, cbmccheck.OBLIGATIONS[k]) for k, v in cb_failed))
+    elif not proved and not mine and not crashes and not divergences:
         vlib.proof_failure(rep, "\n".join(t for t, ok in rep.obligations.items() if not ok))
     return rep.finish()
 
